@@ -17,6 +17,21 @@ const T_OPEN: u64 = 10;
 const T_TXN: u64 = 20;
 const T_REOPEN: u64 = 30;
 
+/// run-length summary of the storage points a transaction passes: "set_db_ts_max*1 write_idl*27 ..."
+fn rle(names: &[&'static str]) -> String {
+    let mut out: Vec<String> = Vec::new();
+    let mut i = 0;
+    while i < names.len() {
+        let mut j = i;
+        while j < names.len() && names[j] == names[i] {
+            j += 1;
+        }
+        out.push(format!("{}*{}", names[i], j - i));
+        i = j;
+    }
+    out.join(" ")
+}
+
 fn disk_part(v: &J) -> J {
     let mut m = serde_json::Map::new();
     for k in ["ent", "sche", "acpe", "oae", "dne"] {
@@ -45,7 +60,8 @@ struct Outcome {
 
 async fn run_case(tpl: &Path, work: &Path, kind: &str, mode: Mode, reopen_init: bool) -> Outcome {
     copy_db(tpl, work);
-    let s = open(work, 4, t(T_OPEN), true).await;
+    let level = level_of(kind);
+    let s = open_level(work, 4, t(T_OPEN), true, level).await;
     let pre = observe(&s).await;
     let ops = ops_of(kind);
     match mode {
@@ -92,7 +108,7 @@ async fn run_case(tpl: &Path, work: &Path, kind: &str, mode: Mode, reopen_init: 
     drop(s);
     let reopen = observe_bare(work, t(T_REOPEN)).await;
     let reopen_full = if reopen_init {
-        let s2 = open(work, 4, t(T_REOPEN + 1), true).await;
+        let s2 = open_level(work, 4, t(T_REOPEN + 1), true, level).await;
         Some(observe(&s2).await)
     } else {
         None
@@ -105,7 +121,8 @@ pub fn run(o: &Opts) -> i32 {
     let dbdir = PathBuf::from(o.str("db", "/verif/work/C04/db"));
     let _ = std::fs::remove_dir_all(&dbdir);
     std::fs::create_dir_all(&dbdir).expect("db dir");
-    let tpl = dbdir.join("template.db");
+    let tpl_tgt = dbdir.join("template.db");
+    let tpl_old = dbdir.join("template14.db");
     let work = dbdir.join("case.db");
     let reopen_init = o.flag("reopen-init");
     let mut kinds: Vec<String> = o.str("kinds", "create,schema,oauth2").split(',').map(String::from).collect();
@@ -134,8 +151,12 @@ pub fn run(o: &Opts) -> i32 {
     let rt = runtime();
     let t0 = std::time::Instant::now();
     rt.block_on(async {
-        make_template(&tpl).await;
+        make_template(&tpl_tgt, kanidmd_lib::prelude::DOMAIN_TGT_LEVEL).await;
+        if kinds.iter().any(|k| level_of(k) != kanidmd_lib::prelude::DOMAIN_TGT_LEVEL) {
+            make_template(&tpl_old, level_of("schema")).await;
+        }
         for kind in &kinds {
+            let tpl = if level_of(kind) == kanidmd_lib::prelude::DOMAIN_TGT_LEVEL { tpl_tgt.clone() } else { tpl_old.clone() };
             // reference run: no fault; counts the storage points of this transaction
             let r = run_case(&tpl, &work, kind, Mode::Count, reopen_init).await;
             if r.res != "ok" {
@@ -144,11 +165,25 @@ pub fn run(o: &Opts) -> i32 {
             }
             let post = r.live.clone();
             let post_disk = r.reopen.clone();
-            tr.emit(&json!({"a":"ref","kind":kind,"k":0,"n":r.seen,"nops":r.seen_ops,"points":r.names,"res":r.res,
+            tr.emit(&json!({"a":"ref","kind":kind,"k":0,"n":r.seen,"nops":r.seen_ops,"points":rle(&r.names),"point":"none","fired":0,"phase":"commit","res":r.res,
                 "pre":r.pre,"live":r.live,"reopen":r.reopen,"post":post,"postd":post_disk,
-                "reopenf": r.reopen_full.clone().unwrap_or(json!("none"))}));
+                "rf": if r.reopen_full.is_some() {1} else {0}, "reopenf": r.reopen_full.clone().unwrap_or(json!({}))}));
+            let names = r.names.clone();
+            let n = r.seen;
+            let stride = o.u64("stride", 0);
+            let sampled = stride > 0 && n > o.u64("sample-above", 150);
+            let keep = |k: u64| -> bool {
+                if !sampled {
+                    return true;
+                }
+                let i = (k - 1) as usize;
+                // first and last occurrence of every point name, every stride-th point, the tail
+                let first = names.iter().position(|x| *x == names[i]) == Some(i);
+                let last = names.iter().rposition(|x| *x == names[i]) == Some(i);
+                first || last || k % stride == 0 || k + 3 > n
+            };
             for k in 1..=r.seen {
-                if !want("fault", kind, k) {
+                if !want("fault", kind, k) || (only.is_none() && !keep(k)) {
                     continue;
                 }
                 let c = run_case(&tpl, &work, kind, Mode::Fault(k), reopen_init).await;
@@ -156,7 +191,7 @@ pub fn run(o: &Opts) -> i32 {
                 tr.emit(&json!({"a":"fault","kind":kind,"k":k,"point":fname,"fired": if fk > 0 {1} else {0},
                     "phase": if k <= c.seen_ops && c.res == "operr" {"op"} else if c.res == "beginerr" {"begin"} else {"commit"},
                     "res":c.res,"pre":c.pre,"live":c.live,"reopen":c.reopen,"post":post,"postd":post_disk,
-                    "reopenf": c.reopen_full.clone().unwrap_or(json!("none"))}));
+                    "rf": if c.reopen_full.is_some() {1} else {0}, "reopenf": c.reopen_full.clone().unwrap_or(json!({}))}));
             }
         }
         // abandon at every operation boundary of the transaction that does everything
@@ -166,18 +201,18 @@ pub fn run(o: &Opts) -> i32 {
                 if !want("abandon", "all", j as u64) {
                     continue;
                 }
-                let c = run_case(&tpl, &work, "all", Mode::Abandon(j), reopen_init).await;
+                let c = run_case(&tpl_tgt, &work, "all", Mode::Abandon(j), reopen_init).await;
                 tr.emit(&json!({"a":"abandon","kind":"all","k":j,"point":"none","fired":0,"phase":"op","res":c.res,
                     "pre":c.pre,"live":c.live,"reopen":c.reopen,"post":c.pre,"postd":disk_part(&c.pre),
-                    "reopenf": c.reopen_full.clone().unwrap_or(json!("none"))}));
+                    "rf": if c.reopen_full.is_some() {1} else {0}, "reopenf": c.reopen_full.clone().unwrap_or(json!({}))}));
             }
         }
         // an operation that fails (duplicate create) after one that succeeded
         if want("opfail", "badop", 0) {
-            let c = run_case(&tpl, &work, "badop", Mode::Count, reopen_init).await;
+            let c = run_case(&tpl_tgt, &work, "badop", Mode::Count, reopen_init).await;
             tr.emit(&json!({"a":"opfail","kind":"badop","k":0,"point":"none","fired":0,"phase":"op","res":c.res,
                 "pre":c.pre,"live":c.live,"reopen":c.reopen,"post":c.pre,"postd":disk_part(&c.pre),
-                "reopenf": c.reopen_full.clone().unwrap_or(json!("none"))}));
+                "rf": if c.reopen_full.is_some() {1} else {0}, "reopenf": c.reopen_full.clone().unwrap_or(json!({}))}));
         }
     });
     let n = tr.finish();
